@@ -1,7 +1,7 @@
 (** * C02 — query answers follow standard SQL semantics on the core relational subset.
     Only statements, each closed by [exact], with its assumptions printed.  (The reading of
     "standard SQL" is additionally cross-checked against SQLite on every run.) *)
-From RL Require Import Model.Exec Proofs.ExecP.
+From RL Require Import Model.Exec Proofs.ExecP Proofs.MergeJoinP Proofs.MergeRightP Proofs.MergeFullP.
 Open Scope Z_scope.
 
 (** WHERE keeps exactly the rows on which the condition is TRUE (not NULL, not FALSE), whatever the chunking *)
@@ -56,6 +56,25 @@ Theorem hash_join_gives_the_same_answer : forall cond lk rk nl nr L R,
   Some (x_hashjoin JInner lk rk nl nr L R) = x_nljoin JInner cond nr L R.
 Proof. exact hashjoin_inner_eq_nljoin. Qed.
 
+(** RIGHT OUTER JOIN on key equality (the nested-loop join does not implement it; the hash join does): every right row,
+    in order, with each left row whose key equals its key (no NULL in the key), or once, padded with NULLs on the left,
+    when there is none *)
+Theorem right_join_pads_unmatched_right_rows : forall lk rk nl nr L R,
+  x_hashjoin JRight lk rk nl nr L R =
+  flat_map (fun r => match filter (fun l => key_match lk rk l r) (concat L) with
+                     | [] => [nulls nl ++ r]
+                     | m => map (fun l => l ++ r) m
+                     end) (concat R).
+Proof. exact hashjoin_right_rows. Qed.
+(** FULL OUTER JOIN: the rows of the right outer join, then every left row without a partner (a NULL in its key, or no
+    right row with that key) padded with NULLs on the right *)
+Theorem full_join_pads_both_sides : forall lk rk nl nr L R,
+  x_hashjoin JFull lk rk nl nr L R =
+  x_hashjoin JRight lk rk nl nr L R ++
+  map (fun l => l ++ nulls nr)
+      (filter (fun l => has_null (keys_of lk l) || negb (existsb (fun r => row_eqb (keys_of lk l) (keys_of rk r)) (concat R))) (concat L)).
+Proof. exact hashjoin_full_as_right_plus_pads. Qed.
+
 Print Assumptions where_keeps_true_rows.
 Print Assumptions inner_join_is_the_matching_pairs.
 Print Assumptions left_join_pads_unmatched.
@@ -67,3 +86,5 @@ Print Assumptions aggregates_on_empty_input.
 Print Assumptions sum_min_max_skip_nulls.
 Print Assumptions count_counts_the_non_null_values.
 Print Assumptions hash_join_gives_the_same_answer.
+Print Assumptions right_join_pads_unmatched_right_rows.
+Print Assumptions full_join_pads_both_sides.
